@@ -149,16 +149,16 @@ Fixpoint cexpr_eqb (a b : cexpr) {struct a} : bool :=
   | _, _ => false
   end.
 
-Definition LOr : nat := 0.
-Definition LAnd : nat := 1.
-Definition LEq : nat := 2.
-Definition LRel : nat := 3.
-Definition LAdd : nat := 4.
-Definition LMul : nat := 5.
-Definition LCast : nat := 6.
-Definition LUnary : nat := 7.
-Definition LPostfix : nat := 8.
-Definition LPrimary : nat := 9.
+Notation LOr := 0%nat (only parsing).
+Notation LAnd := 1%nat (only parsing).
+Notation LEq := 2%nat (only parsing).
+Notation LRel := 3%nat (only parsing).
+Notation LAdd := 4%nat (only parsing).
+Notation LMul := 5%nat (only parsing).
+Notation LCast := 6%nat (only parsing).
+Notation LUnary := 7%nat (only parsing).
+Notation LPostfix := 8%nat (only parsing).
+Notation LPrimary := 9%nat (only parsing).
 
 (** * Derivations.  [Derives l ts t]: the token list [ts] is a level-[l] expression whose abstract
       syntax tree is [t] (parentheses leave no node). *)
